@@ -23,6 +23,13 @@ instance : Monad Outcome where
   pure := ok
   bind := bind
 
+/-- apply `f` to the value, keep diagnostics and panics -/
+def mapOk {α β} (o : Outcome α) (f : α → β) : Outcome β :=
+  match o with
+  | ok a => ok (f a)
+  | diag m => diag m
+  | panic w => panic w
+
 def isPanic {α} : Outcome α → Bool
   | panic _ => true
   | _ => false
@@ -30,6 +37,15 @@ def isPanic {α} : Outcome α → Bool
 def isOk {α} : Outcome α → Bool
   | ok _ => true
   | _ => false
+
+theorem mapOk_isPanic {α β} (o : Outcome α) (f : α → β) : (o.mapOk f).isPanic = o.isPanic := by
+  cases o <;> rfl
+
+theorem mapOk_eq_ok {α β} {o : Outcome α} {f : α → β} {b : β} (h : o.mapOk f = ok b) : ∃ a, o = ok a ∧ f a = b := by
+  cases o with
+  | ok a => exact ⟨a, rfl, by simpa [mapOk] using h⟩
+  | diag m => simp [mapOk] at h
+  | panic m => simp [mapOk] at h
 
 @[simp] theorem bind_ok {α β} (a : α) (f : α → Outcome β) : (ok a >>= f) = f a := rfl
 @[simp] theorem bind_diag {α β} (m : String) (f : α → Outcome β) : ((diag m : Outcome α) >>= f) = diag m := rfl
